@@ -142,19 +142,10 @@ Proof.
 Qed.
 
 (* ------------------------------------------------------------------ RemoveNode *)
-Definition remove_node_body (n : name) (_ : node) : cprog oerr :=
-  r <- call1 (SListNodeWorkloads n) ;;
-  match r with
-  | RWls [] =>
-    txn (ign (doc (SSetNodeStatus n 90)) ;;;
-         e <- doc (SRemoveNode n) ;;
-         match e with
-         | Some e => Ret (Some e)
-         | None => ign (doc (SSetNodeStatus n (-1))) ;;; rok
-         end)
-        (Some (doc (PRemoveNode n)))
-        (Some (fun _ : bool => rok))
-  | RWls _ => Ret (Some ENatural)
+Definition remove_node_body (n : name) (x : node) : cprog oerr :=
+  r0 <- call1 (SGetNode n) ;;
+  match r0 with
+  | RNode y => if Nat.eqb (n_pod y) (n_pod x) then remove_node_inner n else Ret (Some ENatural)
   | RErr e => Ret (Some e)
   | _ => Ret (Some ENatural)
   end.
@@ -176,6 +167,44 @@ Proof.
   unfold del_node in Hy. apply filter_In in Hy. destruct Hy as [_ Hy]. apply negb_true_iff in Hy. rewrite Hy. reflexivity.
 Qed.
 
+
+Lemma remove_node_inner_spec : forall n w k1,
+  (forall y, In y (nodes w) -> n_name y = n -> n_avail y = true) ->
+  exists w' k' r, crunk (remove_node_inner n) w k1 = (w', k', r) /\
+  (r <> None -> w' = w \/ w' = othnp w (del_node n (nodes w)) (plugs w)) /\
+  (r = None -> w' = othnp w (del_node n (nodes w)) (del_plug n (plugs w))).
+Proof.
+  intros n w k1 Hav.
+  destruct (crunk (remove_node_inner n) w k1) as [[w' k'] r] eqn:Hb. exists w', k', r. split; [reflexivity|].
+  revert Hb. unfold remove_node_inner, txn, ign, doc, call1, crunk. norm.
+  assert (Hup : set_nodes w (map (fun x0 => if Nat.eqb (n_name x0) n then mkNode (n_name x0) (n_pod x0) (n_bypass x0) (0 <? 90) (n_label x0) else x0) (nodes w)) = w).
+  { rewrite status_up_id by exact Hav. destruct w; reflexivity. }
+  destruct k1 as [[|k1]|]; norm.
+  + intros E; inversion E; subst. split; [auto|discriminate].
+  + cbn [exec]. destruct (wls_on w n) eqn:Hl; norm.
+    2:{ intros E; inversion E; subst. split; [auto|discriminate]. }
+    destruct k1 as [|k1]; norm.
+    * cbn [exec]. look. norm. cbn [exec]. look. cbn [Z.eqb]. norm. look. rewrite status_down_del.
+      cbn [exec]. look. destruct (find (fun q => Nat.eqb (p_node q) n) (plugs w)); norm;
+        intros E; inversion E; subst; (split; [intros Hne; try congruence; try (right; reflexivity)|try discriminate; try (intros _; reflexivity)]).
+    * cbn [exec]. cbn [Z.eqb]. norm. rewrite Hup.
+      destruct k1 as [|k1]; norm.
+      -- intros E; inversion E; subst. split; [auto|discriminate].
+      -- cbn [exec]. look. norm. destruct k1 as [|k1]; norm.
+         ++ cbn [exec]. look. destruct (find (fun q => Nat.eqb (p_node q) n) (plugs w)); norm;
+              intros E; inversion E; subst; (split; [intros Hne; try congruence; try (right; reflexivity)|try discriminate; try (intros _; reflexivity)]).
+         ++ cbn [exec]. look. cbn [Z.eqb]. norm. look. rewrite status_down_del.
+            destruct k1 as [|k1]; norm.
+            ** intros E; inversion E; subst. split; [intros _; right; reflexivity|discriminate].
+            ** cbn [exec]. look. destruct (find (fun q => Nat.eqb (p_node q) n) (plugs w)); norm;
+                 intros E; inversion E; subst; (split; [intros Hne; try congruence; try (right; reflexivity)|try discriminate; try (intros _; reflexivity)]).
+  + cbn [exec]. destruct (wls_on w n) eqn:Hl; norm.
+    2:{ intros E; inversion E; subst. split; [auto|discriminate]. }
+    cbn [exec]. cbn [Z.eqb]. norm. rewrite Hup. cbn [exec]. look. norm. cbn [exec]. look. cbn [Z.eqb]. norm. look. rewrite status_down_del.
+    cbn [exec]. look. destruct (find (fun q => Nat.eqb (p_node q) n) (plugs w)); norm;
+      intros E; inversion E; subst; (split; [intros Hne; try congruence; try (right; reflexivity)|try discriminate; try (intros _; reflexivity)]).
+Qed.
+
 (* RemoveNode, the strongest true statement: a reported failure leaves the world as it was, EXCEPT when the
    plugin's removal is the failing step: then the node record is gone and the plugin record is still there *)
 Theorem remove_node_partial : forall n w k,
@@ -188,32 +217,13 @@ Proof.
   destruct (with_node_pod_locked_spec n (remove_node_body n) w k) as [w' [k' [r [H [[Hr ->]|[x [k1 [k2 [Hx [Hn Hb]]]]]]]]]].
   - do 3 eexists. split; [exact H|]. split; [auto|congruence].
   - do 3 eexists. split; [exact H|]. clear H.
-    revert Hb. unfold remove_node_body, txn, ign, doc, call1, crunk. norm.
-    assert (Hup : set_nodes w (map (fun x0 => if Nat.eqb (n_name x0) n then mkNode (n_name x0) (n_pod x0) (n_bypass x0) (0 <? 90) (n_label x0) else x0) (nodes w)) = w).
-    { rewrite status_up_id by exact Hav. destruct w; reflexivity. }
-    destruct k1 as [[|k1]|]; norm.
+    revert Hb. unfold remove_node_body, call1, crunk. cbn [bind].
+    destruct k1 as [[|k1]|]; cbn [runk fail_reply].
     + intros E; inversion E; subst. split; [auto|discriminate].
-    + cbn [exec]. destruct (wls_on w n) eqn:Hl; norm.
-      2:{ intros E; inversion E; subst. split; [auto|discriminate]. }
-      destruct k1 as [|k1]; norm.
-      * (* SetNodeStatus(90) fails and is ignored *)
-        cbn [exec]. look. norm. cbn [exec]. look. cbn [Z.eqb]. norm. look. rewrite status_down_del.
-        cbn [exec]. look. destruct (find (fun q => Nat.eqb (p_node q) n) (plugs w)); norm;
-          intros E; inversion E; subst; (split; [intros Hne; try congruence; try (right; reflexivity)|try discriminate; try (intros _; reflexivity)]).
-      * cbn [exec]. cbn [Z.eqb]. norm. rewrite Hup.
-        destruct k1 as [|k1]; norm.
-        -- intros E; inversion E; subst. split; [auto|discriminate].
-        -- cbn [exec]. look. norm. destruct k1 as [|k1]; norm.
-           ++ cbn [exec]. look. destruct (find (fun q => Nat.eqb (p_node q) n) (plugs w)); norm;
-                intros E; inversion E; subst; (split; [intros Hne; try congruence; try (right; reflexivity)|try discriminate; try (intros _; reflexivity)]).
-           ++ cbn [exec]. look. cbn [Z.eqb]. norm. look. rewrite status_down_del.
-              destruct k1 as [|k1]; norm.
-              ** intros E; inversion E; subst. split; [intros _; right; reflexivity|discriminate].
-              ** cbn [exec]. look. destruct (find (fun q => Nat.eqb (p_node q) n) (plugs w)); norm;
-                   intros E; inversion E; subst; (split; [intros Hne; try congruence; try (right; reflexivity)|try discriminate; try (intros _; reflexivity)]).
-    + cbn [exec]. destruct (wls_on w n) eqn:Hl; norm.
-      2:{ intros E; inversion E; subst. split; [auto|discriminate]. }
-      cbn [exec]. cbn [Z.eqb]. norm. rewrite Hup. cbn [exec]. look. norm. cbn [exec]. look. cbn [Z.eqb]. norm. look. rewrite status_down_del.
-      cbn [exec]. look. destruct (find (fun q => Nat.eqb (p_node q) n) (plugs w)); norm;
-        intros E; inversion E; subst; (split; [intros Hne; try congruence; try (right; reflexivity)|try discriminate; try (intros _; reflexivity)]).
+    + cbn [exec]. rewrite Hx. rewrite Nat.eqb_refl.
+      destruct (remove_node_inner_spec n w (Some k1) Hav) as [w2 [k3 [r2 [H2 Hpost]]]].
+      unfold crunk in H2. rewrite H2. intros E; inversion E; subst. exact Hpost.
+    + cbn [exec]. rewrite Hx. rewrite Nat.eqb_refl.
+      destruct (remove_node_inner_spec n w None Hav) as [w2 [k3 [r2 [H2 Hpost]]]].
+      unfold crunk in H2. rewrite H2. intros E; inversion E; subst. exact Hpost.
 Qed.
